@@ -63,3 +63,7 @@ pub use value::{Enum, Struct, Value};
 pub use value_kind::ValueKind;
 
 const MAX_VALUE_DEPTH: u8 = 32;
+
+#[cfg(kani)]
+#[path = "/verif/harness/core/mod.rs"]
+mod verif;
